@@ -23,11 +23,141 @@ def setup():
     return 0
 
 
+def digests(prop, seed, lo, hi, reverse):
+    """Event-log digests of runs lo..hi-1 of a property, executed
+    sequentially in this process (optionally in reverse order)."""
+    import importlib
+    from . import core
+    check = importlib.import_module('checks.' + prop.lower())
+    cfg = dict(check.TIERS['quick'])
+    idx = list(range(lo, hi))
+    if reverse:
+        idx.reverse()
+    out = {}
+    for i in idx:
+        seed_i = core.H(seed, check.PROPERTY, i)
+        run = check.generate(seed_i, cfg)
+        status, payload, dg = core.execute_one(check, run, core.Coverage(),
+                                               cfg.get('wall_cap', 300))
+        sig = ''
+        if status == 'violation':
+            sig = payload['class'] + '/' + payload['site']
+        out[i] = [core.digest(run)[:16], status, sig, dg[:16]]
+    return out
+
+
 def determinism(args):
-    print('not built yet')
-    return 2
+    """Same seed -> same execution: every run is executed (a) in order, (b)
+    in reverse order in another process (state leaking from one run into the
+    next would show), (c) in a fresh interpreter under two other
+    PYTHONHASHSEEDs; the generated op lists, outcomes and event-log digests
+    must all be equal.  Harness --jobs 1 vs 16 is compared on the batch
+    digest."""
+    import json
+    import subprocess
+    from . import core
+    props = (args.props.split(',') if args.props else
+             ['C02', 'C10', 'C06', 'C19', 'C18', 'C16', 'C17', 'C09', 'C20',
+              'C03'])
+    n = args.runs or 48
+    here = os.path.join(core.VERIF, 'check')
+    bad = 0
+    total = 0
+    for prop in props:
+        variants = []
+        for (hs, rev) in (('0', False), ('0', True), ('4242', False),
+                          ('77', True)):
+            env = dict(os.environ, PYTHONHASHSEED=hs)
+            procs = []
+            step = max(1, n // 8)
+            for lo in range(0, n, step):
+                cmd = [sys.executable, here, '_digests', '--props', prop,
+                       '--seed', str(args.seed), '--runs',
+                       '{}:{}'.format(lo, min(n, lo + step))]
+                if rev:
+                    cmd.append('--reverse')
+                procs.append(subprocess.Popen(cmd, env=env,
+                                              stdout=subprocess.PIPE,
+                                              stderr=subprocess.DEVNULL))
+            d = {}
+            for p in procs:
+                out, _ = p.communicate(timeout=3600)
+                try:
+                    d.update(json.loads(out.decode().strip().split('\n')[-1]))
+                except Exception:
+                    print('HARNESS-ERROR: digest helper failed for', prop)
+                    return 2
+            variants.append(d)
+        base = variants[0]
+        diff = [i for i in base
+                if any(v.get(i) != base[i] for v in variants[1:])]
+        total += len(base)
+        stat = {}
+        for v in base.values():
+            stat[v[1]] = stat.get(v[1], 0) + 1
+        print('determinism {}: {} runs x 4 executions (2 orders, 3 hash '
+              'seeds, 4 processes each): {} divergent; outcomes {}'.format(
+                  prop, len(base), len(diff), stat), flush=True)
+        for i in diff[:3]:
+            print('   run', i, [v.get(i) for v in variants])
+        bad += len(diff)
+    print('determinism: {} runs, {} divergent'.format(total, bad))
+    return 0 if bad == 0 else 2
 
 
 def sensitivity(args):
-    print('not built yet')
-    return 2
+    """Breaks each property on purpose in a scratch copy of the repo and
+    requires the check of that property to report a VIOLATION."""
+    import shutil
+    import subprocess
+    from concurrent.futures import ThreadPoolExecutor
+    from . import core, repo
+    from .mutations import M
+    props = args.props.split(',') if args.props else None
+    todo = [m for m in M if props is None or m['prop'] in props]
+    here = os.path.join(core.VERIF, 'check')
+
+    def one(k_m):
+        k, m = k_m
+        dst = '/var/tmp/stbem-sens-{}-{}'.format(os.getpid(), k)
+        shutil.rmtree(dst, ignore_errors=True)
+        shutil.copytree(repo.REPO, dst, ignore=shutil.ignore_patterns(
+            '.git', '__pycache__', '.benchmarks', 'data', 'data_exact'))
+        try:
+            for fn, old, new in m['edits']:
+                p = os.path.join(dst, fn)
+                src = open(p).read()
+                if old not in src:
+                    return m, 'NOT-APPLICABLE', ''
+                open(p, 'w').write(src.replace(old, new, 1))
+            env = dict(os.environ, VERIF_REPO=dst,
+                       VERIF_EVIDENCE_DIR=dst + '-out/evidence',
+                       VERIF_REPLAY_DIR=dst + '-out/replays')
+            cmd = [sys.executable, here, m['prop'], '--tier', 'quick',
+                   '--jobs', '4', '--seed', str(args.seed)]
+            if m.get('runs'):
+                cmd += ['--runs', str(m['runs'])]
+            r = subprocess.run(cmd, env=env, stdout=subprocess.PIPE,
+                               stderr=subprocess.STDOUT, timeout=3000)
+            out = r.stdout.decode(errors='replace')
+            hit = [l for l in out.split('\n')
+                   if l.startswith('VIOLATION property=' + m['prop'])]
+            if r.returncode == 1 and hit:
+                cls = [l.strip() for l in out.split('\n')
+                       if l.strip().startswith('class=')]
+                return m, 'DETECTED', (cls[0][:100] if cls else '')
+            return m, 'MISSED(exit {})'.format(r.returncode), out[-400:]
+        finally:
+            shutil.rmtree(dst, ignore_errors=True)
+            shutil.rmtree(dst + '-out', ignore_errors=True)
+
+    missed = 0
+    with ThreadPoolExecutor(max_workers=4) as ex:
+        for m, verdict, info in ex.map(one, list(enumerate(todo))):
+            print('{:9s} {} {:60s} {}'.format(verdict, m['prop'], m['name'],
+                                              info), flush=True)
+            if verdict != 'DETECTED':
+                missed += 1
+    print('sensitivity: {} mutations, {} not detected'.format(
+        len(todo), missed))
+    return 0 if missed == 0 else 2
